@@ -1,5 +1,6 @@
 """Lip6 (layer sub-check: IPv6 header, jumbograms, hop-by-hop / destination options) configuration for ./check"""
 CONF = {
+    'coq_sample': 15,   # cases re-evaluated inside Coq by vm_compute against the extracted runner's output
     'interesting': ['truncated-prefix-of-valid', 'option-length-extreme', 'residue-options', 'multi-option', 'pad-residue',
                     'odd-payload', 'dirty-buffer', 'no-fixlengths', 'error-after-add', 'error-residue', 'jumbo', 'dispatch-table', 'ext-frag', 'ext-rtg'],
     'rule': 'Kinds ip6/hbh/dst/frag/rtg (frag, rtg = IPv6Fragment, IPv6Routing through NewPacket lazy with recovery off; truncations, header length and routing type mutations, built values with reserved/address lengths 0..17). Packets and extension headers built field by field by the harness (0..5 TLV options incl. Pad1/PadN, '
